@@ -39,6 +39,20 @@ struct Ctx {
     tmp: usize,
 }
 
+// Rust identifiers that are constructors / notations in Gallina get a trailing underscore
+fn cq(n: &str) -> String {
+    match n {
+        "left" | "right" | "pair" | "fst" | "snd" | "nil" | "cons" | "Some" | "None" | "true" | "false" | "tt" | "at" | "as" | "in" | "end" | "fix" | "fun" | "forall" | "exists" => {
+            if matches!(n, "left" | "right" | "pair" | "nil" | "cons" | "at" | "in" | "end" | "fix" | "fun" | "forall" | "exists") {
+                format!("{}_", n)
+            } else {
+                n.to_string()
+            }
+        }
+        _ => n.to_string(),
+    }
+}
+
 fn tstr<T: ToTokens>(t: &T) -> String {
     t.to_token_stream().to_string().replace(' ', "")
 }
@@ -151,6 +165,7 @@ fn data_fn(owner: &str, name: &str) -> bool {
                 | "switch_order_without_rearrangement"
                 | "set_order"
                 | "set_order_without_rearrangement"
+                | "eq"
         )
 }
 
@@ -253,6 +268,7 @@ impl<'a> Tr<'a> {
                     Ty::Named(s) if s == "NonNull" && name == "as_mut" => Ty::Named("RefMut".into()),
                     Ty::Named(s) if s == "Vec" && name == "len" => Ty::Usize,
                     Ty::Named(s) if s == "Vec" && name == "as_mut_ptr" => Ty::Named("RawPtr".into()),
+                    Ty::Named(s) if s == "Vec" && name == "get_unchecked" => Ty::Named("Elem".into()),
                     Ty::Named(s) if s == "Vec" && name == "is_empty" => Ty::Bool,
                     Ty::Named(s) if s == "AsIndex" => Ty::Usize,
                     Ty::Named(s) if s == "Shape" && name == "into" => Ty::Named(s),
@@ -329,7 +345,7 @@ impl<'a> Tr<'a> {
         match p {
             Pat::Ident(i) => {
                 env.insert(i.ident.to_string(), ty.clone());
-                i.ident.to_string()
+                cq(&i.ident.to_string())
             }
             Pat::Tuple(t) => {
                 let tys: Vec<Ty> = if let Ty::Tup(v) = ty { v.clone() } else { vec![Ty::Unknown; t.elems.len()] };
@@ -767,7 +783,7 @@ impl<'a> Tr<'a> {
                     "isize::MAX" => "(imax md)".into(),
                     "usize::MAX" => "(umax md)".into(),
                     s if s.starts_with("Error::") => s[7..].to_string(),
-                    _ => n,
+                    _ => cq(&n),
                 };
                 k(self, n, env)
             }
@@ -784,6 +800,11 @@ impl<'a> Tr<'a> {
             Expr::Field(f) if self.data_mode && tstr(&f.base) == "self" => {
                 let m = tstr(&f.member);
                 k(self, format!("(m_{} self)", m), env)
+            }
+            Expr::Field(f) if self.data_mode && matches!(&*f.base, Expr::Path(_)) && env.get(&tstr(&f.base)) == Some(&Ty::Named("Matrix".into())) => {
+                // a field of another matrix (`other.shape`)
+                let m = tstr(&f.member);
+                k(self, format!("(m_{} {})", m, tstr(&f.base)), env)
             }
             Expr::Field(f) if matches!(f.member, Member::Unnamed(_)) => {
                 let m = tstr(&f.member);
@@ -861,6 +882,9 @@ impl<'a> Tr<'a> {
                                 BinOp::Ge(_) => k(me, pure(">=?"), env),
                                 BinOp::Eq(_) | BinOp::Ne(_) => {
                                     let eq = match &lt {
+                                        // element equality and slice equality are caller code (T: PartialEq)
+                                        Ty::Named(s) if s == "Elem" => format!("(eqT {} {})", l, r),
+                                        Ty::Named(s) if s == "Vec" => format!("(vec_eqb eqT {} {})", l, r),
                                         Ty::Named(s) => format!("(G{}_eqb {} {})", s, l, r),
                                         Ty::Usize | Ty::Isize => pure("=?"),
                                         _ => format!("(*UNSUPPORTED == at type {:?}*)", lt),
@@ -1004,6 +1028,29 @@ impl<'a> Tr<'a> {
                     format!("let* {} := zview {} {} {} (m_data self) in\n  {}", t, vs[0], vs[1], vs[2], k(me, t.clone(), env))
                 })
             }
+            Expr::MethodCall(m) if self.data_mode && m.method == "all" && tstr(&m.receiver).ends_with(".data.iter().enumerate()") && m.args.len() == 1 => {
+                // X.data.iter().enumerate().all(|(i, x)| body): left to right, stops at the first false
+                let Expr::Closure(cl) = &m.args[0] else { return "(*UNSUPPORTED all() argument*)".into() };
+                let who = tstr(&m.receiver).trim_end_matches(".data.iter().enumerate()").to_string();
+                let names: Vec<String> = match cl.inputs.first() {
+                    Some(Pat::Tuple(t)) if cl.inputs.len() == 1 && t.elems.len() == 2 => t.elems.iter().map(tstr).collect(),
+                    _ => return "(*UNSUPPORTED closure parameters*)".into(),
+                };
+                let mut e2 = env.clone();
+                e2.insert(names[0].clone(), Ty::Usize);
+                e2.insert(names[1].clone(), Ty::Named("Elem".into()));
+                let body = self.expr(&cl.body, &mut e2, &mut |_, v, _| format!("Val {}", v));
+                let t = self.fresh("q");
+                format!(
+                    "let* {} := all_res (zenumerate (m_data {})) (fun ix_el => let '({}, {}) := ix_el in\n    {}) in\n  {}",
+                    t,
+                    who,
+                    cq(&names[0]),
+                    cq(&names[1]),
+                    body,
+                    k(self, t.clone(), env)
+                )
+            }
             Expr::MethodCall(m) => {
                 let rt = self.ty_of(&m.receiver, env);
                 let name = m.method.to_string();
@@ -1025,6 +1072,10 @@ impl<'a> Tr<'a> {
                         format!("let* {} := nn_{} es base bytes {} {} in\n  {}", t, name, vs[0], vs[1], k(me, t.clone(), env))
                     }
                     (Ty::Opt(_), "ok_or") => k(me, format!("(ok_or {} {})", vs[0], vs[1]), env),
+                    (Ty::Named(s), "get_unchecked") if s == "Vec" && me.data_mode => {
+                        let t = me.fresh("g");
+                        format!("let* {} := get_unchecked {} {} in\n  {}", t, vs[0], vs[1], k(me, t.clone(), env))
+                    }
                     (Ty::Named(s), "len") if s == "Vec" => k(me, format!("(vec_len {})", vs[0]), env),
                     (Ty::Named(s), "as_mut_ptr") if s == "Vec" && ptr_owner(&me.owner) => k(me, "base".to_string(), env),
                     (Ty::Named(s), "is_empty") if s == "Vec" => k(me, format!("(vec_len {} =? 0)", vs[0]), env),
@@ -1062,6 +1113,15 @@ impl<'a> Tr<'a> {
                         let s = s.clone();
                         let mut a = vs.clone();
                         a[0] = "(mview self)".to_string();
+                        me.call(&s, &name, a, env, k)
+                    }
+                    (Ty::Named(s), _)
+                        if me.data_mode && s == "Matrix" && matches!(&*m.receiver, Expr::Path(_)) && !me.callee_is_mut(s, &name) && me.cx.fns.contains_key(&(s.clone(), name.clone())) =>
+                    {
+                        // a size / stride accessor of another matrix
+                        let s = s.clone();
+                        let mut a = vs.clone();
+                        a[0] = format!("(mview {})", vs[0]);
                         me.call(&s, &name, a, env, k)
                     }
                     (Ty::Named(s), _) if me.cx.fns.contains_key(&(s.clone(), name.clone())) => {
@@ -1184,6 +1244,8 @@ const TARGETS: &[(&str, &str)] = &[
     ("Matrix", "switch_order_without_rearrangement"),
     ("Matrix", "set_order"),
     ("Matrix", "set_order_without_rearrangement"),
+    // eq.rs: PartialEq
+    ("Matrix", "eq"),
     // construct.rs: the constructors
     ("Matrix", "new"),
     ("Matrix", "with_capacity"),
@@ -1253,7 +1315,8 @@ fn main() {
                     let owner = tstr(&i.self_ty).split('<').next().unwrap().to_string();
                     let trait_name = i.trait_.as_ref().map(|(_, p, _)| p.segments.last().unwrap().ident.to_string());
                     let iter_impl = ptr_owner(&owner) && matches!(trait_name.as_deref(), Some("Iterator") | Some("DoubleEndedIterator"));
-                    if !(trait_name.is_none() || iter_impl || (trait_name.as_deref() == Some("MatrixIndex") && owner == "AxisIndex")) {
+                    let eq_impl = trait_name.as_deref() == Some("PartialEq") && owner == "Matrix";
+                    if !(trait_name.is_none() || iter_impl || eq_impl || (trait_name.as_deref() == Some("MatrixIndex") && owner == "AxisIndex")) {
                         continue;
                     }
                     for ii in i.items {
@@ -1337,7 +1400,10 @@ fn main() {
             continue;
         }
         if dm {
-            let ps: Vec<String> = params.iter().map(|p| if p.starts_with("(self") { "(self : matrix A)".to_string() } else { p.clone() }).collect();
+            let ps: Vec<String> = params
+                .iter()
+                .map(|p| if p.starts_with("(self") { "(self : matrix A)".to_string() } else { p.replace(": GMatrix)", ": matrix A)") })
+                .collect();
             let rty = if ret_self {
                 "(matrix A)".to_string()
             } else if self_mut {
@@ -1345,10 +1411,17 @@ fn main() {
             } else {
                 match &ret {
                     Ty::Res(_) => "(result (list A))".to_string(),
+                    Ty::Bool => "bool".to_string(),
                     _ => "(list A)".to_string(),
                 }
             };
-            let extra = if fuel_fn(n) { "(es : Z) (fuel : nat) " } else { "" };
+            let extra = if fuel_fn(n) {
+                "(es : Z) (fuel : nat) "
+            } else if body.contains("eqT") {
+                "(eqT : A -> A -> bool) "
+            } else {
+                ""
+            };
             println!("Definition G_{}_{} {{A : Type}} (md : cfg) {}{} : res {} :=\n  {}.\n", o, n, extra, ps.join(" "), rty, body);
             continue;
         }
